@@ -50,122 +50,160 @@ def _cond(facts, rel, body):
     return " ".join(m.group(1).split())
 
 
+# Hand-written table of the shapes last seen in the source.  When a span leaves
+# the supported subset the generator still writes ValidatorGen.v with these
+# entries for the affected validator (so that the model stays buildable and the
+# correspondence run can exhibit a concrete input on which the changed code
+# differs), and then raises Unsupported — the obligation is reported as broken.
+DEFAULTS = {
+    "maximum": ["Definition maximum_cmp_gen : cmp := CLe."],
+    "minimum": ["Definition minimum_cmp_gen : cmp := CGe."],
+    "multiple_of": ["Definition multiple_of_zero_guard_gen : bool := true."],
+    "max_length": ["Definition max_length_measure_gen : measure := MBytes.", "Definition max_length_cmp_gen : cmp := CLe."],
+    "min_length": ["Definition min_length_measure_gen : measure := MBytes.", "Definition min_length_cmp_gen : cmp := CGe."],
+    "chars_max_length": ["Definition chars_max_length_measure_gen : measure := MChars.", "Definition chars_max_length_cmp_gen : cmp := CLe."],
+    "chars_min_length": ["Definition chars_min_length_measure_gen : measure := MChars.", "Definition chars_min_length_cmp_gen : cmp := CGe."],
+    "max_items": ["Definition max_items_cmp_gen : cmp := CLe."],
+    "min_items": ["Definition min_items_cmp_gen : cmp := CGe."],
+    "regex": ["Definition regex_requires_compile_gen : bool := true."],
+    "number": ["Definition int_bound_type_gen : btype := TI64.", "Definition float_bound_type_gen : btype := TF64.",
+               "Definition bound_literals_nonnegative_gen : bool := true."],
+    "order": ["Definition list_order_gen : list N := [8%N; 9%N].",
+              "Definition elem_order_gen : list N := [0%N; 1%N; 2%N; 3%N; 4%N; 5%N; 6%N; 7%N]."],
+}
+
+
 def gen(facts):
     out = []
     spans = []
+    errors = []
 
-    # ---- maximum / minimum
-    for name in ("maximum", "minimum"):
-        rel, body, l0, l1 = _fn_body(facts, name)
+    def section(key, fn):
+        try:
+            lines, sp = fn()
+            out.extend(lines)
+            spans.extend(sp)
+        except facts.Unsupported as e:
+            errors.append(str(e))
+            out.append(f"(* FALLBACK (source span not in the supported subset: {str(e)[:200].replace('*)', '* )')}) *)")
+            out.extend(DEFAULTS[key])
+        except Exception as e:  # unexpected source shape
+            errors.append(f"{key}: {type(e).__name__}: {e}")
+            out.append(f"(* FALLBACK ({key}: {type(e).__name__}) *)")
+            out.extend(DEFAULTS[key])
+
+    def numeric(name):
+        def f():
+            rel, body, l0, l1 = _fn_body(facts, name)
+            c = _cond(facts, rel, body)
+            m = re.fullmatch(r"value\.as_\(\)\s*(<=|>=|<|>|==|!=)\s*n", c)
+            if not m:
+                raise facts.Unsupported(f"{rel}: condition {c!r} is not `value.as_() <op> n`")
+            if not re.search(r"T:\s*AsPrimitive<N>\s*\+\s*InputType", facts.read(rel)):
+                raise facts.Unsupported(f"{rel}: bound `T: AsPrimitive<N> + InputType` not found")
+            return [f"Definition {name}_cmp_gen : cmp := {CMP[m.group(1)]}."], [(rel, l0, l1, body)]
+        return f
+
+    def multiple_of():
+        rel, body, l0, l1 = _fn_body(facts, "multiple_of")
+        if not re.search(r"let\s+value\s*=\s*value\.as_\(\)\s*;", body):
+            raise facts.Unsupported(f"{rel}: `let value = value.as_();` not found")
         c = _cond(facts, rel, body)
-        m = re.fullmatch(r"value\.as_\(\)\s*(<=|>=|<|>|==|!=)\s*n", c)
-        if not m:
-            raise facts.Unsupported(f"{rel}: condition {c!r} is not `value.as_() <op> n`")
-        sig = facts.read(rel)
-        if not re.search(r"T:\s*AsPrimitive<N>\s*\+\s*InputType", sig):
-            raise facts.Unsupported(f"{rel}: bound `T: AsPrimitive<N> + InputType` not found")
-        out.append(f"Definition {name}_cmp_gen : cmp := {CMP[m.group(1)]}.")
-        spans.append((rel, l0, l1, body))
+        if re.fullmatch(r"!value\.is_zero\(\)\s*&&\s*value % n == N::zero\(\)", c):
+            guard = "true"
+        elif re.fullmatch(r"value % n == N::zero\(\)", c):
+            guard = "false"
+        else:
+            raise facts.Unsupported(f"{rel}: condition {c!r} not in subset")
+        return [f"Definition multiple_of_zero_guard_gen : bool := {guard}."], [(rel, l0, l1, body)]
 
-    # ---- multiple_of
-    rel, body, l0, l1 = _fn_body(facts, "multiple_of")
-    if not re.search(r"let\s+value\s*=\s*value\.as_\(\)\s*;", body):
-        raise facts.Unsupported(f"{rel}: `let value = value.as_();` not found")
-    c = _cond(facts, rel, body)
-    if re.fullmatch(r"!value\.is_zero\(\)\s*&&\s*value % n == N::zero\(\)", c):
-        guard = "true"
-    elif re.fullmatch(r"value % n == N::zero\(\)", c):
-        guard = "false"
-    else:
-        raise facts.Unsupported(f"{rel}: condition {c!r} not in subset")
-    out.append(f"Definition multiple_of_zero_guard_gen : bool := {guard}.")
-    spans.append((rel, l0, l1, body))
+    def length(name):
+        def f():
+            rel, body, l0, l1 = _fn_body(facts, name)
+            c = _cond(facts, rel, body)
+            m = re.fullmatch(r"value\.as_ref\(\)\.(len\(\)|chars\(\)\.count\(\))\s*(<=|>=|<|>|==|!=)\s*len", c)
+            if not m:
+                raise facts.Unsupported(f"{rel}: condition {c!r} not in subset")
+            if not re.search(r"T:\s*AsRef<str>\s*\+\s*InputType", facts.read(rel)):
+                raise facts.Unsupported(f"{rel}: bound `T: AsRef<str> + InputType` not found")
+            meas = "MBytes" if m.group(1) == "len()" else "MChars"
+            return ([f"Definition {name}_measure_gen : measure := {meas}.",
+                     f"Definition {name}_cmp_gen : cmp := {CMP[m.group(2)]}."], [(rel, l0, l1, body)])
+        return f
 
-    # ---- string lengths
+    def items(name):
+        def f():
+            rel, body, l0, l1 = _fn_body(facts, name)
+            c = _cond(facts, rel, body)
+            m = re.fullmatch(r"value\.deref\(\)\.len\(\)\s*(<=|>=|<|>|==|!=)\s*len", c)
+            if not m:
+                raise facts.Unsupported(f"{rel}: condition {c!r} not in subset")
+            return [f"Definition {name}_cmp_gen : cmp := {CMP[m.group(1)]}."], [(rel, l0, l1, body)]
+        return f
+
+    def regex():
+        rel, body, l0, l1 = _fn_body(facts, "regex")
+        c = _cond(facts, rel, body)
+        if c != "let Ok(true) = Regex::new(regex).map(|re| re.is_match(value.as_ref()))":
+            raise facts.Unsupported(f"{rel}: condition {c!r} not in subset")
+        return (["(* regex: accepted iff the pattern compiles and is_match is true *)",
+                 "Definition regex_requires_compile_gen : bool := true."], [(rel, l0, l1, body)])
+
+    def number():
+        rel = "derive/src/validators.rs"
+        text = facts.read(rel)
+        body, l0, l1 = facts.span_after(text, r"impl FromMeta for Number \{", rel)
+        if not (re.search(r"Lit::Int\(n\)\s*=>\s*Ok\(Number::I64\(n\.base10_parse::<i64>\(\)\?\)\)", body)
+                and re.search(r"Lit::Float\(n\)\s*=>\s*Ok\(Number::F64\(n\.base10_parse::<f64>\(\)\?\)\)", body)):
+            raise facts.Unsupported(f"{rel}: Number::from_value arms not in subset")
+        if "from_expr" in body or "Unary" in body:
+            raise facts.Unsupported(f"{rel}: Number now accepts more than plain literals (negative bounds?)")
+        sp = [(rel, l0, l1, body)]
+        body, l0, l1 = facts.span_after(text, r"impl ToTokens for Number \{", rel)
+        if not (re.search(r"Number::F64\(n\)\s*=>\s*tokens\.extend\(quote!\(#n as f64\)\)", body)
+                and re.search(r"Number::I64\(n\)\s*=>\s*tokens\.extend\(quote!\(#n as i64\)\)", body)):
+            raise facts.Unsupported(f"{rel}: Number::to_tokens arms not in subset")
+        sp.append((rel, l0, l1, body))
+        return (["(* integer literal bound -> i64 (non-negative: a plain literal), float literal bound -> f64 *)"]
+                + DEFAULTS["number"], sp)
+
+    def order():
+        rel = "derive/src/validators.rs"
+        text = facts.read(rel)
+        body, l0, l1 = facts.span_after(text, r"pub fn create_validators\(", rel)
+        pushes = re.findall(
+            r"if let Some\((?:n|re)\) = &self\.(\w+) \{\s*(list|elem)_validators\.push\(quote! \{\s*"
+            r"#crate_name::validators::(\w+)\(__raw_value, #(?:n|re)\)\s*\}\);\s*\}", body)
+        if len(pushes) != len(KINDS):
+            raise facts.Unsupported(f"{rel}: expected {len(KINDS)} validator pushes, found {len(pushes)}")
+        order_list, order_elem = [], []
+        for field, grp, fn in pushes:
+            if field != fn or fn not in TAG:
+                raise facts.Unsupported(f"{rel}: push of {field} calls validators::{fn}")
+            (order_list if grp == "list" else order_elem).append(fn)
+        if sorted(order_list + order_elem) != sorted(KINDS):
+            raise facts.Unsupported(f"{rel}: validator set changed: {order_list + order_elem}")
+        norm = " ".join(body.split())
+        i1, i2 = norm.find(BLK_LIST), norm.find(BLK_ELEM)
+        if i1 < 0 or i2 < 0 or not i1 < i2:
+            raise facts.Unsupported(f"{rel}: the emitted list/elem validator blocks left the known shape")
+        return (["(* create_validators: list-level validators run first (on the raw list, skipped for None),",
+                 "   then element-level validators on the raw value, or on every non-None item in list mode;",
+                 "   each `?` returns at the first error.  Tags: " + ", ".join(f"{TAG[k]}={k}" for k in KINDS) + " *)",
+                 "Definition list_order_gen : list N := [" + "; ".join(f"{TAG[k]}%N" for k in order_list) + "].",
+                 "Definition elem_order_gen : list N := [" + "; ".join(f"{TAG[k]}%N" for k in order_elem) + "]."],
+                [(rel, l0, l1, body)])
+
+    section("maximum", numeric("maximum"))
+    section("minimum", numeric("minimum"))
+    section("multiple_of", multiple_of)
     for name in ("max_length", "min_length", "chars_max_length", "chars_min_length"):
-        rel, body, l0, l1 = _fn_body(facts, name)
-        c = _cond(facts, rel, body)
-        m = re.fullmatch(r"value\.as_ref\(\)\.(len\(\)|chars\(\)\.count\(\))\s*(<=|>=|<|>|==|!=)\s*len", c)
-        if not m:
-            raise facts.Unsupported(f"{rel}: condition {c!r} not in subset")
-        if not re.search(r"T:\s*AsRef<str>\s*\+\s*InputType", facts.read(rel)):
-            raise facts.Unsupported(f"{rel}: bound `T: AsRef<str> + InputType` not found")
-        meas = "MBytes" if m.group(1) == "len()" else "MChars"
-        out.append(f"Definition {name}_measure_gen : measure := {meas}.")
-        out.append(f"Definition {name}_cmp_gen : cmp := {CMP[m.group(2)]}.")
-        spans.append((rel, l0, l1, body))
-
-    # ---- items
+        section(name, length(name))
     for name in ("max_items", "min_items"):
-        rel, body, l0, l1 = _fn_body(facts, name)
-        c = _cond(facts, rel, body)
-        m = re.fullmatch(r"value\.deref\(\)\.len\(\)\s*(<=|>=|<|>|==|!=)\s*len", c)
-        if not m:
-            raise facts.Unsupported(f"{rel}: condition {c!r} not in subset")
-        out.append(f"Definition {name}_cmp_gen : cmp := {CMP[m.group(1)]}.")
-        spans.append((rel, l0, l1, body))
-
-    # ---- regex
-    rel, body, l0, l1 = _fn_body(facts, "regex")
-    c = _cond(facts, rel, body)
-    if c != "let Ok(true) = Regex::new(regex).map(|re| re.is_match(value.as_ref()))":
-        raise facts.Unsupported(f"{rel}: condition {c!r} not in subset")
-    out.append("(* regex: accepted iff the pattern compiles and is_match is true *)")
-    out.append("Definition regex_requires_compile_gen : bool := true.")
-    spans.append((rel, l0, l1, body))
-
-    # ---- derive: literal -> bound type
-    rel = "derive/src/validators.rs"
-    text = facts.read(rel)
-    body, l0, l1 = facts.span_after(text, r"impl FromMeta for Number \{", rel)
-    if not (re.search(r"Lit::Int\(n\)\s*=>\s*Ok\(Number::I64\(n\.base10_parse::<i64>\(\)\?\)\)", body)
-            and re.search(r"Lit::Float\(n\)\s*=>\s*Ok\(Number::F64\(n\.base10_parse::<f64>\(\)\?\)\)", body)):
-        raise facts.Unsupported(f"{rel}: Number::from_value arms not in subset")
-    if "from_expr" in body or "Unary" in body:
-        raise facts.Unsupported(f"{rel}: Number now accepts more than plain literals (negative bounds?)")
-    spans.append((rel, l0, l1, body))
-    body, l0, l1 = facts.span_after(text, r"impl ToTokens for Number \{", rel)
-    if not (re.search(r"Number::F64\(n\)\s*=>\s*tokens\.extend\(quote!\(#n as f64\)\)", body)
-            and re.search(r"Number::I64\(n\)\s*=>\s*tokens\.extend\(quote!\(#n as i64\)\)", body)):
-        raise facts.Unsupported(f"{rel}: Number::to_tokens arms not in subset")
-    out.append("(* integer literal bound -> i64 (non-negative: a plain literal), float literal bound -> f64 *)")
-    out.append("Definition int_bound_type_gen : btype := TI64.")
-    out.append("Definition float_bound_type_gen : btype := TF64.")
-    out.append("Definition bound_literals_nonnegative_gen : bool := true.")
-    spans.append((rel, l0, l1, body))
-
-    # ---- derive: order and grouping of validators
-    body, l0, l1 = facts.span_after(text, r"pub fn create_validators\(", rel)
-    # span_after takes the first '{' after the signature start; the signature has none.
-    pushes = re.findall(
-        r"if let Some\((?:n|re)\) = &self\.(\w+) \{\s*(list|elem)_validators\.push\(quote! \{\s*"
-        r"#crate_name::validators::(\w+)\(__raw_value, #(?:n|re)\)\s*\}\);\s*\}", body)
-    if len(pushes) != len(KINDS):
-        raise facts.Unsupported(f"{rel}: expected {len(KINDS)} validator pushes, found {len(pushes)}")
-    order_list, order_elem = [], []
-    for field, grp, fn in pushes:
-        if field != fn or fn not in TAG:
-            raise facts.Unsupported(f"{rel}: push of {field} calls validators::{fn}")
-        (order_list if grp == "list" else order_elem).append(fn)
-    if sorted(order_list + order_elem) != sorted(KINDS):
-        raise facts.Unsupported(f"{rel}: validator set changed: {order_list + order_elem}")
-    norm = " ".join(body.split())
-    blk_list = ("if !list_validators.is_empty() { codes.push(quote! { if let ::std::option::Option::Some(__raw_value) = "
-                "#crate_name::InputType::as_raw_value(#value) { #(#list_validators #map_err ?;)* } }); }")
-    blk_elem = ("if !elem_validators.is_empty() { if self.list { codes.push(quote! { if let ::std::option::Option::Some(value) = "
-                "#crate_name::InputType::as_raw_value(#value) { for __item in value { if let ::std::option::Option::Some(__raw_value) = "
-                "#crate_name::InputType::as_raw_value(__item) { #(#elem_validators #map_err ?;)* } } } }); } else { codes.push(quote! { "
-                "if let ::std::option::Option::Some(__raw_value) = #crate_name::InputType::as_raw_value(#value) { "
-                "#(#elem_validators #map_err ?;)* } }); } }")
-    i1, i2 = norm.find(blk_list), norm.find(blk_elem)
-    if i1 < 0 or i2 < 0 or not i1 < i2:
-        raise facts.Unsupported(f"{rel}: the emitted list/elem validator blocks left the known shape")
-    out.append("(* create_validators: list-level validators run first (on the raw list, skipped for None),")
-    out.append("   then element-level validators on the raw value, or on every non-None item in list mode;")
-    out.append("   each `?` returns at the first error.  Tags: " + ", ".join(f"{TAG[k]}={k}" for k in KINDS) + " *)")
-    out.append("Definition list_order_gen : list N := [" + "; ".join(f"{TAG[k]}%N" for k in order_list) + "].")
-    out.append("Definition elem_order_gen : list N := [" + "; ".join(f"{TAG[k]}%N" for k in order_elem) + "].")
-    spans.append((rel, l0, l1, body))
+        section(name, items(name))
+    section("regex", regex)
+    section("number", number)
+    section("order", order)
 
     head = "(* GENERATED by tools/factsgen/validators.py from\n"
     for rel, l0, l1, b in spans:
@@ -175,4 +213,16 @@ def gen(facts):
     head += "Inductive cmp := CLe | CGe | CLt | CGt | CEq | CNe.\n"
     head += "Inductive measure := MBytes | MChars.\n"
     head += "Inductive btype := TI64 | TF64.\n\n"
-    return facts.write_out("ValidatorGen.v", head + "\n".join(out) + "\n")
+    path = facts.write_out("ValidatorGen.v", head + "\n".join(out) + "\n")
+    if errors:
+        raise facts.Unsupported("; ".join(errors) + " (ValidatorGen.v written with the last known shape for these entries)")
+    return path
+
+
+BLK_LIST = ("if !list_validators.is_empty() { codes.push(quote! { if let ::std::option::Option::Some(__raw_value) = "
+            "#crate_name::InputType::as_raw_value(#value) { #(#list_validators #map_err ?;)* } }); }")
+BLK_ELEM = ("if !elem_validators.is_empty() { if self.list { codes.push(quote! { if let ::std::option::Option::Some(value) = "
+            "#crate_name::InputType::as_raw_value(#value) { for __item in value { if let ::std::option::Option::Some(__raw_value) = "
+            "#crate_name::InputType::as_raw_value(__item) { #(#elem_validators #map_err ?;)* } } } }); } else { codes.push(quote! { "
+            "if let ::std::option::Option::Some(__raw_value) = #crate_name::InputType::as_raw_value(#value) { "
+            "#(#elem_validators #map_err ?;)* } }); } }")
